@@ -2,6 +2,7 @@ package main
 
 import (
 	"fmt"
+	"os"
 	"go/token"
 	"go/types"
 	"regexp"
@@ -719,6 +720,8 @@ func (vc *VC) merge(edges []edgeIn, label string) *State {
 			}
 			if same {
 				out.locals[k] = v
+			} else if os.Getenv("GOVC_DBG") != "" {
+				fmt.Fprintf(os.Stderr, "DBG merge %s drops local %s\n", label, k)
 			}
 		}
 	}
